@@ -159,7 +159,9 @@ type RefStore struct {
 	wSeq    int
 	planFn  func(inst int, op string, nth int) OpPlan
 	opCount map[int]int
-	cut     map[int]bool // crashed/partitioned instances: operations hang for ever
+	cut     map[int]bool // partitioned instances: operations time out (client-side request time-out)
+	dead    map[int]bool // crashed instances: operations hang for ever
+	opTimeout time.Duration
 	wplanFn func(inst int, nth int) (delay time.Duration, drop bool)
 	done    chan struct{} // closed at scenario end: releases hung operations
 	watchFail map[int]int // remaining Watch() failures per instance
@@ -167,7 +169,7 @@ type RefStore struct {
 }
 
 func newRefStore(tr *Trace, ttl time.Duration) *RefStore {
-	return &RefStore{tr: tr, ttl: ttl, data: map[string]*storeRec{}, opCount: map[int]int{}, cut: map[int]bool{},
+	return &RefStore{tr: tr, ttl: ttl, data: map[string]*storeRec{}, opCount: map[int]int{}, cut: map[int]bool{}, dead: map[int]bool{}, opTimeout: 2 * time.Second,
 		done: make(chan struct{}), watchFail: map[int]int{}}
 }
 
@@ -279,23 +281,44 @@ func (c *Client) begin(op string, desc string) (opCtx, bool) {
 		plan = s.planFn(c.inst, op, nth)
 	}
 	cut := s.cut[c.inst]
+	dead := s.dead[c.inst]
 	s.mu.Unlock()
 	s.tr.logf("call %d %d %s", id, c.inst, desc)
 	if s.trigger != nil {
 		s.trigger(c.inst, nth, "call")
 	}
-	if cut {
+	if dead {
 		plan.Fault = "hang"
+	}
+	if cut && !dead {
+		// partitioned: the request never reaches the store; the client gives up after its request time-out
+		s.tr.logf("apply %d dropped", id)
+		select {
+		case <-time.After(s.opTimeout):
+		case <-s.done:
+		}
+		s.tr.logf("ret %d err timeout", id)
+		return opCtx{id, nth, plan}, false
 	}
 	if plan.Pre > 0 {
 		time.Sleep(plan.Pre)
 	}
 	s.mu.Lock()
-	cut = s.cut[c.inst]
+	dead = s.dead[c.inst]
 	s.mu.Unlock()
-	if cut || plan.Fault == "hang" {
+	if dead {
 		s.tr.logf("apply %d dropped", id)
 		<-s.done
+		return opCtx{id, nth, plan}, false
+	}
+	if plan.Fault == "hang" {
+		// never reaches the store; the client gives up after its request time-out
+		s.tr.logf("apply %d dropped", id)
+		select {
+		case <-time.After(s.opTimeout):
+		case <-s.done:
+		}
+		s.tr.logf("ret %d err timeout", id)
 		return opCtx{id, nth, plan}, false
 	}
 	return opCtx{id, nth, plan}, true
@@ -310,15 +333,23 @@ func (c *Client) finish(o opCtx) bool {
 		time.Sleep(o.plan.Post)
 	}
 	if o.plan.Fault == "hangafter" {
-		<-c.s.done
+		// applied, but the answer never arrives: client-side request time-out
+		select {
+		case <-time.After(c.s.opTimeout):
+		case <-c.s.done:
+		}
 		return false
 	}
 	c.s.mu.Lock()
 	cut := c.s.cut[c.inst]
+	dead := c.s.dead[c.inst]
 	c.s.mu.Unlock()
-	if cut {
+	if dead {
 		<-c.s.done
 		return false
+	}
+	if cut {
+		return false // the answer is lost; the caller reports a time-out
 	}
 	return o.plan.Fault != "acklost"
 }
@@ -517,7 +548,7 @@ func (w *refWatch) pump() {
 			delay, drop = w.s.wplanFn(w.inst, nth)
 		}
 		w.s.mu.Lock()
-		cut := w.s.cut[w.inst]
+		cut := w.s.cut[w.inst] || w.s.dead[w.inst]
 		w.s.mu.Unlock()
 		if drop || cut {
 			w.s.tr.logf("wdrop %d %d %d", w.id, w.inst, it.rev)
